@@ -218,8 +218,9 @@ class struct_generator(_composite_generator_base):
 
             def get_padded_sizes():
                 types = list(cls._types())
-                sizes = [tp._SIZE for tp in types]
-                alignments = [tp._ALIGNMENT for tp in types[1:]] + [cls._ALIGNMENT]
+                sizes = [(tp._OPTIONAL_SIZE if tp._OPTIONAL else tp._SIZE) for tp in types]
+                alignments = [(tp._OPTIONAL_ALIGNMENT if tp._OPTIONAL else tp._ALIGNMENT) for tp in types[1:]]
+                alignments.append(cls._ALIGNMENT)
                 offset = 0
 
                 for size, alignment in zip(sizes, alignments):
